@@ -5,10 +5,12 @@ import (
 	"context"
 	"encoding/json"
 	"fmt"
+	"io"
 	"iter"
 	"reflect"
 	"sort"
 	"strings"
+	"sync"
 	"time"
 
 	"github.com/ddddddO/gtree"
@@ -600,6 +602,116 @@ func c13SharedOptions(c *rep.Ctx) {
 	}
 }
 
+// parkedReader delivers its first chunk, reports that, and then blocks until release is closed (a producer that has gone
+// quiet); parkedWriter takes its first write, reports that, and blocks likewise (a consumer that has stopped reading).
+type parkedReader struct {
+	first   string
+	rest    string
+	started chan<- struct{}
+	release <-chan struct{}
+	state   int
+}
+
+func (r *parkedReader) Read(p []byte) (int, error) {
+	switch r.state {
+	case 0:
+		r.state = 1
+		return copy(p, r.first), nil
+	case 1:
+		r.state = 2
+		r.started <- struct{}{}
+		<-r.release
+		return copy(p, r.rest), nil
+	}
+	return 0, io.EOF
+}
+
+type parkedWriter struct {
+	started chan<- struct{}
+	release <-chan struct{}
+	parked  bool
+}
+
+func (w *parkedWriter) Write(p []byte) (int, error) {
+	if !w.parked {
+		w.parked = true
+		w.started <- struct{}{}
+		<-w.release
+	}
+	return len(p), nil
+}
+
+// c13InFlight: K other massive calls are in the middle of their work (parked on their own reader or writer) while
+// one more call is made on a tree of its own: it gives what the tree predicts, however many calls are in flight.
+func c13InFlight(c *rep.Ctx) {
+	hist := []hop{{K: "N", T: 0, Name: "r"}, {K: "A", T: 0, Node: 0, Name: "a"}, {K: "A", T: 0, Node: 1, Name: "b"}, {K: "A", T: 0, Node: 0, Name: "b"}}
+	for _, kind := range []string{"readers", "writers"} {
+		for _, K := range []int{1, 2, 9, 10, 11, 16, 33} {
+			if !c.Take() || c.Expired() {
+				continue
+			}
+			c.StateN(1)
+			c.Inc("in_flight_histories")
+			started := make(chan struct{}, K)
+			release := make(chan struct{})
+			var wg sync.WaitGroup
+			for i := 0; i < K; i++ {
+				wg.Add(1)
+				go func(i int) {
+					defer wg.Done()
+					defer func() { recover() }()
+					doc := fmt.Sprintf("- p%d\n  - q\n- s%d\n  - t\n", i, i)
+					if kind == "readers" {
+						gtree.OutputFromMarkdown(io.Discard, &parkedReader{first: doc, rest: "- late\n", started: started, release: release}, gtree.WithMassive(context.Background()))
+					} else {
+						gtree.OutputFromMarkdown(&parkedWriter{started: started, release: release}, strings.NewReader(doc), gtree.WithMassive(nil))
+					}
+				}(i)
+			}
+			parked := 0
+			timeout := time.After(30 * time.Second)
+		waitParked:
+			for parked < K {
+				select {
+				case <-started:
+					parked++
+				case <-timeout:
+					break waitParked
+				}
+			}
+			desc := fmt.Sprintf("%d massive calls parked on their %s, then on a tree of its own", parked, kind)
+			w := &c13World{}
+			for _, h := range hist {
+				w.apply(h)
+			}
+			for _, k := range []string{"P", "PW", "PD", "PK", "T", "J"} {
+				got, want, p := w.observe(k, 0)
+				c.Eval()
+				if p != "" || got != want {
+					c.Violation("C13|result-depends-on-calls-in-flight|"+k, fmt.Sprintf("%s, observation %s:\n got: %s %s\nwant: %s", desc, k, got, p, want), K, nil)
+				}
+			}
+			var out string
+			var err error
+			p := guardMaybeMassive(true, func() { out, err, _ = sut.Output(c13MdDoc, gtree.WithMassive(context.Background())) })
+			if p != "" || err != nil || out != c13MdWant {
+				c.Violation("C13|result-depends-on-calls-in-flight|massive-markdown", fmt.Sprintf("%s: massive OutputFromMarkdown gives %q err=%v %s", desc, out, err, p), K, nil)
+			}
+			close(release)
+			done := make(chan struct{})
+			go func() { wg.Wait(); close(done) }()
+			select {
+			case <-done:
+			case <-time.After(30 * time.Second):
+				c.Violation("C13|parked-calls-did-not-finish-after-release", desc, K, nil)
+			}
+			if parked < K {
+				c.Violation("C13|calls-in-flight-did-not-start", fmt.Sprintf("only %d of %d concurrent massive calls reached their %s within 30 s", parked, K, kind), K, nil)
+			}
+		}
+	}
+}
+
 // c13EdgedNames: a tree whose names begin or end with blanks (legal names, legal directory names): operations that
 // validate names (dry run, verify, mkdir; simple and massive) leave the tree as it is - every later observation and
 // every later Add still sees the names as they were given.
@@ -824,6 +936,7 @@ func init() {
 		c13SharedOptions(c)
 		c13Nested(c)
 		c13EdgedNames(c)
+		c13InFlight(c)
 		c.R.Nontrivial = c.R.States
 		if c13Jail != nil {
 			c13Jail.Remove()
